@@ -370,6 +370,10 @@ def generate(prop, seed, tier):
         r = S.int(0, n_rounds - 2)
         rounds[r]["fail_at"] = S.int(0, nf + 1)
     scen = {"engine": NAME, "property": prop, "seed": seed, "dag": dag, "mode": mode, "funcs": funcs, "rounds": rounds}
+    if mode == "direct" and nf > 1 and S.chance(0.25):
+        # some functions are only declared (constructed) right before their first fit call - possibly
+        # after a function they use has been fitted already
+        scen["late"] = sorted(j for j in range(nf) if S.chance(0.6))
     if mode == "cond":
         scen["roles"] = S.perm(nf)  # function j sits under template parameter roles[j]
         scen["dict_order"] = S.perm(nf)
@@ -382,11 +386,19 @@ def generate(prop, seed, tier):
 # --------------------------------------------------------------------------
 
 
-def build(scen):
+def build(scen, late=()):
+    """all functions of the DAG; those listed in `late` are left out (None) and constructed by
+    build_late right before their first fit call"""
     from virocon import DependenceFunction
 
     objs = []
+    late = set(late)
     for j, fs in enumerate(scen["funcs"]):
+        if any(c in late for c in fs["conds"]):
+            late.add(j)  # a function cannot be declared before the functions it uses
+        if j in late:
+            objs.append(None)
+            continue
         shape = SHAPES[fs["shape"]]
         kw = {}
         names = list(shape[2])
@@ -402,6 +414,23 @@ def build(scen):
         cons = make_constraints(fs["constraints"])
         objs.append(DependenceFunction(make_func(fs["shape"], fs["p0"]), bounds=bounds, constraints=cons, weights=weights, **kw))
     return objs
+
+
+def build_late(scen, objs, j):
+    """construct function j now (its conditioners first, if they do not exist yet)"""
+    from virocon import DependenceFunction
+
+    fs = scen["funcs"][j]
+    for c in fs["conds"]:
+        if objs[c] is None:
+            build_late(scen, objs, c)
+    shape = SHAPES[fs["shape"]]
+    names = list(shape[2])
+    idx = fs.get("kw_order") or list(range(len(names)))
+    kw = {names[i]: objs[fs["conds"][i]] for i in idx}
+    bounds = None if fs["bounds"] is None else [(lo, hi) for lo, hi in fs["bounds"]]
+    weights = WEIGHT_FUNCS[fs["weights"]] if fs["weights"] else None
+    objs[j] = DependenceFunction(make_func(fs["shape"], fs["p0"]), bounds=bounds, constraints=make_constraints(fs["constraints"]), weights=weights, **kw)
 
 
 def _stub_template(n, fixed_first=False):
@@ -453,7 +482,7 @@ def _stub_template(n, fixed_first=False):
 
 
 def params_of(objs):
-    return [[float(v) for v in o.parameters.values()] for o in objs]
+    return [None if o is None else [float(v) for v in o.parameters.values()] for o in objs]
 
 
 def _ssq(spec, j, x, y, params, W, own=None):
@@ -820,7 +849,7 @@ def execute(prop, scen):
         ]
     )
     with seams.recorded_warnings():
-        objs = build(scen)  # construction of a generated DAG must not fail
+        objs = build(scen, tuple(scen.get("late") or ()))  # construction of a generated DAG must not fail
         cond = None
         if scen["mode"] == "cond":
             from virocon.distributions import ConditionalDistribution
@@ -880,6 +909,9 @@ def execute(prop, scen):
                         called = set(range(nf))
                     else:
                         for j in rnd["order"]:
+                            if objs[j] is None:
+                                build_late(scen, objs, j)
+                                run.count("probe:declared-right-before-its-first-fit")
                             st0 = _proto_state(objs)
                             cont = rnd.get("container", "ndarray")
                             xa, ya = (x, ys[j]) if cont == "ndarray" else ((x.tolist(), ys[j].tolist()) if cont == "list" else (tuple(x.tolist()), tuple(ys[j].tolist())))
